@@ -127,6 +127,22 @@ def run(ctx):
                               het_prob=(0.95 if repeats else 0.8), given=(repeat_reference(r2) if repeats else None))
             ctx.dist("reference", "segmental-duplication" if repeats else "random")
             make_pairs(r2, sc, r2.choice([0.0, 0.0, 0.3]))
+            if r2.random() < 0.3:
+                # clipped alignments (primer-trimmed amplicons, local aligners): hard clips are not part of SEQ, soft
+                # clips are; neither moves the aligned bases
+                for r in sc.reads:
+                    if r2.random() < 0.6:
+                        cig = [tuple(c) for c in r["cigar"]]
+                        if r2.random() < 0.5:
+                            n = r2.randrange(1, 25); cig = [(4, n)] + cig; r["seq"] = sim.random_seq(r2, n) + r["seq"]
+                        if r2.random() < 0.5:
+                            n = r2.randrange(1, 25); cig = cig + [(4, n)]; r["seq"] = r["seq"] + sim.random_seq(r2, n)
+                        if r2.random() < 0.6:
+                            cig = [(5, r2.randrange(1, 30))] + cig
+                        if r2.random() < 0.4:
+                            cig = cig + [(5, r2.randrange(1, 30))]
+                        r["cigar"] = cig
+                ctx.dist("clips", "soft/hard clipped reads")
             d = os.path.join(wd, "run")
             shutil.rmtree(d, ignore_errors=True)
             # optionally hand the reads over as TWO alignment files that reuse the same read names (two sequencing
